@@ -21,6 +21,7 @@ from ..gen.programs import Gen
 from ..instr import astfp
 from ..instr import clock as clk
 from ..instr import sched
+from ..instr import staticstate
 
 ID = "C09"
 LEVEL = "exploration"
@@ -86,6 +87,9 @@ TEMPLATES: dict[str, str] = {
     "macro3": "{% if formal %}{% macro greet name, greeting: 'Good day' %}{{ greeting }}, {{ name }}!{% endmacro %}{% else %}"
               "{% macro greet name, greeting: 'Hi' %}{{ greeting }}, {{ name }}!{% endmacro %}{% endif %}{% call greet v %}"
               "{% for i in xs %}{% call greet i %}{% endfor %}",
+    "macrorender": "{% macro card t %}<{% render 'rp', x: t %}>{% endmacro %}{% call card v %}{% call card 'z' %}",
+    "renderblock": "{% render 'blocky', v: v %}|{% render 'child2', v: v %}",
+    "blocky": "{% block b %}[{{ v }}]{% endblock %}",
     "child": "{% extends 'base' %}{% block a %}child-a {{ block.super }}{% endblock %}stray",
     "child2": "{% extends 'base' %}{% block b %}child2-b {{ v }}{% endblock %}",
     "base": "<{% block a %}base-a{% endblock %}|{% block b %}base-b{% endblock %}>",
@@ -101,7 +105,7 @@ TEMPLATES: dict[str, str] = {
     "undefined": "{{ nosuch }}{{ v | default: 'd' }}{% if nosuch %}t{% else %}f{% endif %}{{ nosuch.deeper | size }}",
     "ifchanged": "{% for i in xs %}{% if forloop.first %}F{% endif %}{{ forloop.index }}{% endfor %}{% liquid\nassign z = v\necho z %}",
 }
-ROOTS = ["counters", "cycle", "offset", "capture", "macro", "macro2", "macro3", "child", "child2", "now", "translate",
+ROOTS = ["counters", "cycle", "offset", "capture", "macro", "macro2", "macro3", "macrorender", "renderblock", "child", "child2", "now", "translate",
          "include", "render", "custom", "drop", "with", "undefined", "ifchanged"]
 
 
@@ -318,6 +322,7 @@ def run_history(ctx: Ctx, sources: dict[str, str], hist: list[dict[str, Any]], c
     c = clk.install()
     c.t = 1_700_000_000.0
     w = World(sources, caching)
+    static = staticstate.Snapshot()
     for i, st in enumerate(hist):
         c.advance(st.get("advance", 0))
         if st["op"] == "configure":
@@ -347,6 +352,14 @@ def run_history(ctx: Ctx, sources: dict[str, str], hist: list[dict[str, Any]], c
                     ctx.count("faults_that_aborted_a_render")
             if st.get("advance"):
                 ctx.count("clock_advances")
+        # nothing bound at module or class level in liquid2 may change (it would be seen
+        # by every other environment and template of the process)
+        moved = static.changed()
+        if record:
+            ctx.count("static_state_checks")
+            ctx.mx("max:static_state_names", static.names)
+        if moved:
+            return i, ("static-state-mutated", moved[0]), ("ok", "process-wide state unchanged", "static-state")
         if shared != fresh:
             return i, shared, fresh
         # rendering must not write to the parsed template (state on AST nodes outlives the
@@ -434,6 +447,13 @@ def check_history(ctx: Ctx, sources: dict[str, str], hist: list[dict[str, Any]],
     if len(fresh) == 3 and fresh[2] == "astfp":
         ctx.violation(f"template-mutated-by-render:{astfp.mechanism(shared[1])}",
                       f"after {_opname(hist[idx])} of '{hist[idx].get('tpl')}' the parsed template differs from a fresh parse: {shared[1]}",
+                      {"sources": {k: v for k, v in sources.items() if k in _used(small, sources)},
+                       "history": small, "caching": caching, "shared": list(shared), "fresh": list(fresh)})
+        return
+    if len(fresh) == 3 and fresh[2] == "static-state":
+        name = shared[1].split(":")[0].split(" (")[0]
+        ctx.violation(f"process-wide-state-mutated-by-render:{name.removeprefix('liquid2.')}",
+                      f"after {_opname(hist[idx])} of '{hist[idx].get('tpl')}': {shared[1]}",
                       {"sources": {k: v for k, v in sources.items() if k in _used(small, sources)},
                        "history": small, "caching": caching, "shared": list(shared), "fresh": list(fresh)})
         return
@@ -669,7 +689,7 @@ def floors(tier: str) -> dict[str, int]:
             "schedules_explored": 500 * k, "clock_advances": 1000 * k, "configure_steps": 200 * k,
             "clock_selftest_ok": 1, "set:ops": 10, "clock_oracle_checks": 100 * k,
             "fresh_process_comparisons": 120 * k, "fresh_process_comparisons_loaderless": 30 * k,
-            "template_fingerprint_checks": 3000 * k}
+            "template_fingerprint_checks": 3000 * k, "static_state_checks": 5000 * k, "max:static_state_names": 25}
 
 
 def run_shard(spec: dict[str, Any], ctx: Ctx) -> None:
